@@ -20,8 +20,9 @@ VERIF = Path(__file__).resolve().parent.parent
 LEAN = VERIF / "lean"
 REPO = Path(os.environ.get("UNIVERS_REPO", "/repo"))
 SRC = REPO / "src"
-EVIDENCE = VERIF / "evidence"
-REPLAYS = VERIF / "replays"
+# runs against a scratch copy of the repository (seeded changes) must not overwrite the evidence of /repo
+EVIDENCE = Path(os.environ.get("VERIF_EVIDENCE_DIR") or (VERIF / "evidence"))
+REPLAYS = Path(os.environ.get("VERIF_REPLAYS_DIR") or (VERIF / "replays"))
 UMODEL = LEAN / ".lake" / "build" / "bin" / "umodel"
 
 os.environ.setdefault("UNIVERS_VERIF", "1")
@@ -288,6 +289,8 @@ class Reporter:
             replay = dict(replay)
             replay.setdefault("property", self.pid)
             replay.setdefault("key", key)
+            replay.setdefault("seed", self.seed)
+            replay.setdefault("tier", self.tier)
             replay["found_failing_input"] = bool(found)
             path.write_text(json.dumps(replay, indent=1, sort_keys=True, default=str))
             line = "VIOLATION property=%s replay=%s" % (self.pid, path)
